@@ -12,3 +12,8 @@ func Pick[T any](k int, a T, b T) T {
 	}
 	return b
 }
+
+// ZeroOr: the type parameter occurs only in the result.
+func ZeroOr[T any](a int, b int) []T {
+	return make([]T, 1)
+}
